@@ -502,3 +502,28 @@ def _kani_counterexample(repo, ob, failure):
         return {"input": doc, "kani_values": [c["repr"] for c in cex], "expected": "a value or an error, never a panic",
                 "observed": "exit %s: %s" % (r["rc"], " ".join(l.strip() for l in r["err"].split("\n") if "panicked" in l or "min > max" in l)[:300])}
     return None
+
+
+@generator("C13.h.")
+@generator("C13.v.")
+@generator("C13.hv.")
+def _hv_connectors(repo, ob, failure):
+    """h / v connectors: an axis-parallel line through the middle of the overlap of the two referenced
+    boxes - for plain shapes and for <use> instances alike"""
+    import re as _re
+    cases = []
+    for kind, mk in (("rect", lambda i, x, y: '<rect id="%s" xy="%g %g" wh="10"/>' % (i, x, y)),
+                     ("use", lambda i, x, y: '<use id="%s" href="#t" x="%g" y="%g"/>' % (i, x, y))):
+        cases.append((kind, "h", mk("a", 0, 20) + mk("b", 40, 24), {"y1": 27.0, "y2": 27.0, "x1": 10.0, "x2": 40.0}))
+        cases.append((kind, "v", mk("a", 0, 20) + mk("b", 4, 44), {"x1": 7.0, "x2": 7.0, "y1": 30.0, "y2": 44.0}))
+    for kind, et, shapes, want in cases:
+        doc = '<svg><defs><rect id="t" wh="10"/></defs>%s<line id="c" start="#a" end="#b" edge-type="%s"/></svg>' % (shapes, et)
+        r = run_svgdx(repo, doc)
+        if r["rc"] != 0:
+            err = _re.findall(r"(MissingBoundingBox\([^)]*\)|[A-Za-z]+Error\([^)]{0,60})", r["err"])
+            return {"input": doc, "observed": "error instead of a line: %s" % (err[-1] if err else r["err"][-200:]), "expected": "line %r" % want}
+        m = _re.search(r'<line id="c"([^>]*)>', r["out"])
+        got = dict((k, float(v)) for k, v in _re.findall(r'(x1|y1|x2|y2)="([-0-9.]+)"', m.group(1))) if m else {}
+        if any(abs(got.get(k, 1e9) - v) > 0.002 for k, v in want.items()):
+            return {"input": doc, "observed": "%r" % got, "expected": "%r" % want}
+    return None
